@@ -307,7 +307,6 @@ def run(ctx):
     # ---------------------------------------------------------------- K4
     gc = ctx.func('ikesa.IkeSa.generate_child_sa_key_material')
     cp_ = gc.call_params()
-    ctx.require(cp_ == ['child_proposal', 'keyseed', 'sk_d'], 'parameters of generate_child_sa_key_material changed: %s' % cp_)
     G = ctx.sval(gc)
     site = ctx.site(gc, gc.node)
     kr = G.ret()
@@ -323,9 +322,11 @@ def run(ctx):
         km = up.args.get('#1', NONE)
         ok = tq.is_call(km, 'crypto.Prf.prfplus') and same(km[2], G.expr('self.my_crypto.prf'))
         ka = tq.args(km) if ok else {}
-        ok = ok and ka.get(pp.call_params()[0]) == ('param', 'sk_d') and ka.get(pp.call_params()[1]) == ('param', 'keyseed')
-        ctx.check(ok, 'K4', 'KEYMAT = prf+(SK_d, keyseed, ...) with the IKE_SA\'s PRF', key=('K4', 'prfplus'), site=site,
-                  detail={'split input': tq.text(km, 300)})
+        # what the callee uses as key, seed and proposal - as terms over its parameters; the call sites are judged with their
+        # arguments put in (so it does not matter how the three are passed: one by one, inside the ChildSa, read from self)
+        key_t, seed_t = strip_ids(ka.get(pp.call_params()[0], NONE)), strip_ids(ka.get(pp.call_params()[1], NONE))
+        ctx.check(ok and key_t != NONE and seed_t != NONE, 'K4', 'KEYMAT = prf+(SK_d, keyseed, ...) with the IKE_SA\'s PRF', key=('K4', 'prfplus'),
+                  site=site, detail={'split input': tq.text(km, 300)})
         for proto, want in (('ESP', [11, 7, 11, 7]), ('AH', [0, 7, 0, 7])):
             env = {'integ': 7, 'encr': 11, 'proto': proto}
             sizes = fmt_sizes(ctx, gc, up, env)
@@ -333,9 +334,25 @@ def run(ctx):
             ctx.check(sizes == want and total == sum(want), 'K4', '%s: requested length and split widths are encr|integ|encr|integ%s' % (
                 proto, ' with no encryption key' if proto == 'AH' else ''), key=('K4', 'split-order', proto), site=site,
                 detail={'sizes': sizes, 'total': total})
-        ctx.check(tq.contains(U, G.expr('Integrity(child_proposal.get_transform(Transform.Type.INTEG))')) and
-                  tq.contains(U, G.expr('Cipher(child_proposal.get_transform(Transform.Type.ENCR))')), 'K4',
-                  'CHILD key sizes come from the negotiated INTEG and ENCR transforms', key=('K4', 'sizes'), site=site)
+        integs = [x for x in tq.find(strip_ids(U), lambda y: tq.is_call(y, 'new crypto.Integrity'))]
+        ciphs = [x for x in tq.find(strip_ids(U), lambda y: tq.is_call(y, 'new crypto.Cipher'))]
+
+        def source(objs, ttype):
+            """the proposal term P when every object is built as Cls(P.get_transform(Transform.Type.<ttype>))"""
+            ps = set()
+            for o in objs:
+                a_ = list(tq.args(o).values())
+                if len(a_) == 1 and tq.is_call(a_[0]) and isinstance(a_[0][1], str) and a_[0][1].endswith('get_transform') \
+                        and list(tq.args(a_[0]).values()) == [('global', 'message.Transform.Type.' + ttype)]:
+                    ps.add(a_[0][2])
+                else:
+                    ps.add(None)
+            return ps.pop() if len(ps) == 1 else None
+        prop_i, prop_c = source(integs, 'INTEG'), source(ciphs, 'ENCR')
+        ctx.check(prop_i is not None and prop_i == prop_c, 'K4',
+                  'CHILD key sizes come from the INTEG and ENCR transforms of one proposal', key=('K4', 'sizes'), site=site,
+                  detail={'integrity from': tq.text(prop_i) if prop_i else None, 'cipher from': tq.text(prop_c) if prop_c else None})
+        prop_t = prop_i if prop_i is not None and prop_i == prop_c else None
     # call sites: keyseed and sk_d
     nsites = 0
     for q, role in (('ikesa.IkeSa._process_create_child_sa_negotiation_req', 'responder'),
@@ -345,12 +362,23 @@ def run(ctx):
         msg = fi.call_params()[0]
         for c in S.calls_to(qual=gc.qual):
             nsites += 1
-            b = c.args
+            from ..sval import subst_params
+            b = {k: v for k, v in c.args.items()}
             st = ctx.site(fi, c.node)
-            common.expect_term(ctx, 'K4', S, b.get('sk_d'), 'self.ike_sa_keyring.sk_d', '%s: KEYMAT is keyed with the current IKE_SA\'s SK_d'
-                               % fi.name, ('K4', q, 'sk_d'), st)
-            ks = b.get('keyseed', NONE)
-            prop = b.get('child_proposal', NONE)
+            from ..sval import refold
+            at_site = lambda t: refold(subst_params(t, b)) if t is not None else NONE      # noqa: E731
+            common.expect_term(ctx, 'K4', S, at_site(key_t) if U is not None else NONE, 'self.ike_sa_keyring.sk_d',
+                               '%s: KEYMAT is keyed with the current IKE_SA\'s SK_d' % fi.name, ('K4', q, 'sk_d'), st)
+            ks = at_site(seed_t) if U is not None else NONE
+            prop = at_site(prop_t) if U is not None and prop_t is not None else NONE
+            # the proposal whose transforms size the keys is the one this negotiation chose: on the responder what
+            # _select_best_sa_proposal returned, on the initiator the proposal of the response's SA payload
+            if role == 'responder':
+                chosen_ok = tq.is_call(strip_ids(prop), 'ikesa.IkeSa._select_best_sa_proposal')
+            else:
+                chosen_ok = tq.match(S.expr('%s.get_payload(Payload.Type.SA, True).proposals[0]' % msg), prop) is not None
+            ctx.check(chosen_ok, 'K4', '%s: the key sizes are those of the proposal this negotiation chose' % fi.name,
+                      key=('K4', q, 'chosen-proposal'), site=st, detail={'sized from': tq.text(prop, 200)})
             has_dh = ('call', 'message.Proposal.get_transforms', strip_ids(prop), (('type', ('global', 'message.Transform.Type.DH')),))
 
             def dh(v):
